@@ -266,6 +266,7 @@ def exact_imposition(ctx):
     xtype = type(x)
     x = asarray(list(x))
     _t = asarray(target)
+    if _t.dtype.kind == 'O': _t = _t.astype(float)
     if not _holds(x.dtype, _t):
         x = x.astype(result_type(x, _t))
     n = len(x)
